@@ -199,22 +199,16 @@ class FilReader(Filterbank):
             data = np.frombuffer(read_buffer, dtype=self.bitsinfo.dtype)
 
         self._file.seek(start * self.samp_stride)
-        nreads, lastread = divmod(nsamps, (gulp - skipback))
-        if lastread < skipback:
-            nreads -= 1
-            lastread = nsamps - (nreads * (gulp - skipback))
-        if nreads > 0 and (nreads - 1) * (gulp - skipback) + gulp > nsamps:
-            msg = (
-                f"cannot read {nsamps} samples in blocks of {gulp} "
-                f"with skipback ({skipback})"
-            )
-            raise ValueError(msg)
+        # Block ii starts (gulp - skipback) samples after block ii - 1 and the
+        # last block holds whatever is left (more than skipback, at most gulp).
+        stride = gulp - skipback
+        nblocks = -(-(nsamps - gulp) // stride) + 1
         blocks = [
             (ii, gulp * self.header.nchans, -skipback * self.header.nchans)
-            for ii in range(nreads)
+            for ii in range(nblocks - 1)
         ]
-        if lastread != 0:
-            blocks.append((nreads, lastread * self.header.nchans, 0))
+        lastread = nsamps - (nblocks - 1) * stride
+        blocks.append((nblocks - 1, lastread * self.header.nchans, 0))
 
         read_to_end = start + nsamps == self.header.nsamples
         datalen = self.header.stream_info.get_combined("datalen")
@@ -222,7 +216,7 @@ class FilReader(Filterbank):
         unpack_view = None if unpack_buffer is None else memoryview(unpack_buffer)
         for ii, block, skip in track(blocks, description=description, disable=quiet):
             logger.debug(
-                f"read_plan: Reading block {ii}/{nreads}, {block} elements, "
+                f"read_plan: Reading block {ii}/{nblocks}, {block} elements, "
                 f"with skipback={skip}",
             )
             expected_nbytes = int(block * self.chan_stride)
